@@ -616,7 +616,25 @@ class Ex:
         st = self.binop(ast.Add(), off, lo)
         return View(base, st, as_int(ln) if as_int(ln) is not None else ln)
 
+    def _with_slice_objects(self, sl):
+        """subscript elements that are names bound to slice(...) objects are replaced by the slice they stand for"""
+        def conv(e):
+            if isinstance(e, ast.Name) and isinstance(self.env.get(e.id), tuple) and self.env[e.id][:1] == ('sliceobj',):
+                _, a, b, c = self.env[e.id]
+                mk = lambda x: None if x is None else ast.Constant(value=x)
+                return ast.copy_location(ast.Slice(lower=mk(a), upper=mk(b), step=mk(c)), e)
+            return e
+        if isinstance(sl, ast.Tuple):
+            new = [conv(e) for e in sl.elts]
+            if any(a is not b for a, b in zip(new, sl.elts)):
+                return ast.copy_location(ast.Tuple(elts=new, ctx=ast.Load()), sl)
+            return sl
+        return conv(sl)
+
     def ev_Subscript(self, n):
+        sl2 = self._with_slice_objects(n.slice)
+        if sl2 is not n.slice:
+            n = ast.copy_location(ast.Subscript(value=n.value, slice=sl2, ctx=n.ctx), n)
         v = self.ev(n.value)
         if isinstance(v, Opaque) and v.what == 'np.r_':
             parts = []
@@ -724,11 +742,21 @@ class Ex:
                     r, a = toreal(r), toreal(a)
                 r = z3.If(r >= a, r, a) if name == 'max' else z3.If(r <= a, r, a)
             return r
-        if name == 'np.where' and len(n.args) == 1:
+        if name in ('np.where', 'np.nonzero') and len(n.args) == 1 and not n.keywords:
+            # one-argument np.where is np.nonzero
             c = self.ev(n.args[0])
             if not isinstance(c, CondArr):
-                raise OutsideSubset('np.where of a non-comparison')
+                raise OutsideSubset(f'{name} of a non-comparison')
             return ('where-result', c)
+        if name == 'np.append' and len(n.args) == 2 and not n.keywords:
+            # np.append(a, x) of a 1-D array and a scalar (or 1-D array) is np.r_[a, x]
+            parts = []
+            for e in n.args:
+                x = self.ev(e)
+                parts.append(('arr', x) if isinstance(x, ArrObj) else ('scalar', x))
+            if not (isinstance(parts[0][1], ArrObj) and len(parts[0][1].shape) == 1):
+                raise OutsideSubset('np.append of something that is not a 1-D array')
+            return Concat(parts)
         if name in ('.any', '.all') and isinstance(f, ast.Attribute) and not n.args:
             v = self.ev(f.value)
             if isinstance(v, LocalArr):
@@ -749,6 +777,12 @@ class Ex:
             else:
                 cond = CondArr(lambda i, a=a, v=v, nlen=nlen: z3.If(R(i) < nlen, toreal(R(v)) < toreal(R(a.read([R(i)]))), z3.BoolVal(True)), nlen + 1)
             return self.first_index(cond)
+        if name == 'slice' and 1 <= len(n.args) <= 3 and not n.keywords:
+            a = [self.ev(x) for x in n.args]
+            if not all(x is None or isinstance(x, int) for x in a):
+                raise OutsideSubset('slice() with non-literal bounds')
+            a = [None, a[0], None] if len(a) == 1 else (a + [None])[:3]
+            return ('sliceobj', a[0], a[1], a[2])
         if name == 'len':
             v = self.ev(n.args[0])
             if isinstance(v, tuple):
@@ -1047,6 +1081,12 @@ class Ex:
             ast.fix_missing_locations(new)
             self.loop_index[id(new)] = self.loop_index.get(id(s))
             return self.st_For(new)
+        if isinstance(s.iter, (ast.Tuple, ast.List)) and self.loops.get(self.loop_ordinal(s)) is None:
+            # loop over a literal tuple / list: unrolled (complete, the length is in the source)
+            for e in s.iter.elts:
+                self.assign(s.target, self.ev(e), s)
+                self.run_iteration(s.body)
+            return
         lo, hi, step = self.range_args(s.iter)
         pol = self.loops.get(self.loop_ordinal(s))
         clo, chi, cst = as_int(lo), as_int(hi), as_int(step)
